@@ -152,6 +152,8 @@ structure StepOK (bb : Option Name) (P : List Obj) (w1 : World) (r : StepRec) : 
   exportc : exportClause P r = true
   asked : askedClause P r = true
   bind : bindClause r = true
+  fp : fpClause r = true
+  voc : voClause r = true
 
 theorem crashes_false {cs : List Creation} {S : List Obj} (hS : ∀ e ∈ S, e.uid ≠ none)
     (M : ∀ c ∈ cs, ∀ m, c.made = some m → getO S m.oid = some m) : crashes cs S = false := by
@@ -176,7 +178,7 @@ theorem crashes_false {cs : List Creation} {S : List Obj} (hS : ∀ e ∈ S, e.u
 
 /-- the three snapshot clauses from a per-object description of the new snapshot -/
 theorem snapshot_clauses {P S : List Obj} {r : StepRec} (hs : r.snap = some S) (hc : r.crash = false)
-    (hS : ∀ e ∈ S, e.uid ≠ none)
+    (hS : ∀ e ∈ S, e.uid ≠ none) (hwf : WF S)
     (H : ∀ e ∈ S, getO P e.oid = some e ∨ isMade r e.oid = true ∨
       ∃ p, getO P e.oid = some p ∧ (e.euid = p.euid ∨ euidChangeOk r e = true) ∧
         (e.uid = p.uid ∨ uidChangeOk P r p e = true))
@@ -193,10 +195,11 @@ theorem snapshot_clauses {P S : List Obj} {r : StepRec} (hs : r.snap = some S) (
         | none => exact absurd h hu
         | some _ => rfl
       rw [hu']
+      have hw := hwf e he
       rcases H e he with h | h | ⟨p, h, _⟩
-      · simp [h]
-      · simp [h]
-      · simp [h]
+      · simp [h, hw]
+      · simp [h, hw]
+      · simp [h, hw]
     · intro c hc'
       cases hm : c.made with
       | none => simp
